@@ -48,7 +48,11 @@ def gen(rng, tier):
         sc['kill']['time'] = rng.choice([0, 0.005, 0.05])
     acc = ['join', 'join_t', 'result', 'exception', 'done', 'exitcode', 'wait', 'as_completed', 'wait_t']
     sc['accessors'] = [[rng.choice(acc) for _ in range(rng.choice([1, 2, 3, 4]))] for _ in range(sc['nthreads'])]
-    cfg = swarm(rng, racy=0.2, line=0.15, max_time=400.0, max_steps=600_000, pipe_cap=rng.choice([4096, 65536]))
+    if sc['nthreads'] > 1 and rng.random() < 0.6:
+        # both parent threads are already blocked in a waiting accessor when the target ends (they compete for the child's exit status)
+        for a in sc['accessors']:
+            a[0] = rng.choice(['join', 'result', 'result', 'exception'])
+    cfg = swarm(rng, racy=0.2, line=0.15, starve=0.4 if sc['nthreads'] > 1 else 0.1, max_time=400.0, max_steps=600_000, pipe_cap=rng.choice([4096, 65536]))
     return {'scenario': sc, 'sim': cfg}
 
 
